@@ -42,10 +42,24 @@ pub(crate) fn named(attr: &StructAttr, ts_name: Expr, fields: &FieldsNamed) -> R
         (0, 0) => quote!("{  }".to_owned()),
         (_, 0) => quote!(format!("{{ {} }}", #fields)),
         (0, 1) => quote! {{
-            if #flattened.starts_with('(') && #flattened.ends_with(')') {
-                #flattened[1..#flattened.len() - 1].trim().to_owned()
+            let flattened = #flattened;
+            // Unwrap `(A | B)`, but only if the first parenthesis is closed by the last one -
+            // `(A | B) & (C | D)` has to stay as it is.
+            let mut depth = 0usize;
+            let wrapped = flattened.starts_with('(')
+                && flattened.ends_with(')')
+                && flattened.char_indices().all(|(i, c)| {
+                    match c {
+                        '(' => depth += 1,
+                        ')' => depth = depth.saturating_sub(1),
+                        _ => (),
+                    }
+                    depth > 0 || i == flattened.len() - 1
+                });
+            if wrapped {
+                flattened[1..flattened.len() - 1].trim().to_owned()
             } else {
-                #flattened.trim().to_owned()
+                flattened.trim().to_owned()
             }
         }},
         (0, _) => quote!(#flattened),
